@@ -284,6 +284,23 @@ func planC10(prop string, seed uint64, tier string, idx int) *Plan {
 				break
 			}
 			g.add(g.readOp(repo))
+		case 10:
+			// an untagged index and its child are collected, then the child's bytes come back through the blob endpoint:
+			// they are a blob, not a manifest, in both stores and after a restart
+			if g.p.Knobs.untagged() && g.p.Knobs.grace() < 0 && len(indexes) > 0 {
+				ix := indexes[g.r.intn(len(indexes))]
+				if ch := g.p.Objs[ix].Children; len(ch) > 0 && g.p.Objs[ch[0]].Kind == "image" {
+					g.pushManifest(repo, ix, "", false)
+					g.add(Op{K: "gc", Repo: repo})
+					g.add(Op{K: "blob", Mode: "put", Repo: repo, Obj: ch[0], Sess: g.nextSess()})
+					g.add(Op{K: "get", Mode: "man", Repo: repo, Obj: ch[0], Accept: "all"})
+					g.add(Op{K: "restart"})
+					g.add(Op{K: "get", Mode: "man", Repo: repo, Obj: ch[0], Accept: "all"})
+					g.add(Op{K: "check"})
+					break
+				}
+			}
+			g.gcHistoryOp(repo, images, indexes, arts, extra)
 		case 9:
 			// a stored blob is uploaded again (a plain session, no digest on the POST) shortly before its grace period ends,
 			// and read when the period of the first upload is over but not that of the second
